@@ -1,0 +1,77 @@
+//go:build verif
+// +build verif
+
+// Verification hook H3 (add-only, compiled only with -tags verif): thin wrappers that let an
+// external harness drive this package's own distributed key generation for one member:
+// newGroupInitContext -> GenSharePieces (genSharePiece + getSeedPubKey) -> HandleSharePiece
+// (handleSharePiece -> aggregateKeys) -> getSignSecKey / getGroupPubKey.
+// No behaviour of existing code paths changes.
+package group_create
+
+import (
+	"strconv"
+
+	"com.tuntun.rangers/node/src/common"
+	"com.tuntun.rangers/node/src/consensus/base"
+	"com.tuntun.rangers/node/src/consensus/groupsig"
+	"com.tuntun.rangers/node/src/consensus/model"
+	"com.tuntun.rangers/node/src/middleware/log"
+	"com.tuntun.rangers/node/src/middleware/types"
+)
+
+// VerifInitLoggers sets the package loggers the way groupCreateProcessor.Init does
+// (handleSharePiece logs through groupCreateLogger, which is nil before Init).
+func VerifInitLoggers() {
+	if groupCreateLogger == nil {
+		groupCreateLogger = log.GetLoggerByIndex(log.GroupCreateLogConfig, strconv.Itoa(common.InstanceIndex))
+	}
+	if groupCreateDebugLogger == nil {
+		groupCreateDebugLogger = log.GetLoggerByIndex(log.GroupCreateDebugLogConfig, strconv.Itoa(common.InstanceIndex))
+	}
+}
+
+// VerifDKGMember is one member's view of a group being created.
+type VerifDKGMember struct {
+	ctx *groupInitContext
+}
+
+// VerifNewDKGMember builds the member's group-init context exactly as the processor does
+// (newGroupInitContext -> NewGroupNodeInfo) for a miner whose secret seed is minerSeed,
+// a group identified by groupHash and the given ordered member list.
+func VerifNewDKGMember(minerSeed base.Rand, groupHash common.Hash, members []groupsig.ID) *VerifDKGMember {
+	mi := &model.SelfMinerInfo{SecretSeed: minerSeed}
+	info := &model.GroupInitInfo{
+		GroupHeader:  &types.GroupHeader{Hash: groupHash},
+		GroupMembers: members,
+	}
+	ctx := newGroupInitContext(info, nil, mi)
+	if ctx == nil {
+		return nil
+	}
+	return &VerifDKGMember{ctx: ctx}
+}
+
+// GenSharePieces is groupInitContext.GenSharePieces: receiver id (hex) -> piece dealt to it.
+func (m *VerifDKGMember) GenSharePieces() map[string]model.SharePiece {
+	return m.ctx.GenSharePieces()
+}
+
+// HandleSharePiece is groupInitContext.HandleSharePiece (0 stored, 1 keys aggregated, -1 error).
+func (m *VerifDKGMember) HandleSharePiece(from groupsig.ID, piece *model.SharePiece) int {
+	return m.ctx.HandleSharePiece(from, piece)
+}
+
+// SignSecKey is the member's aggregated signing key (valid after HandleSharePiece returned 1).
+func (m *VerifDKGMember) SignSecKey() groupsig.Seckey { return m.ctx.nodeInfo.getSignSecKey() }
+
+// GroupPubKey is the group public key this member computed.
+func (m *VerifDKGMember) GroupPubKey() groupsig.Pubkey { return m.ctx.nodeInfo.getGroupPubKey() }
+
+// SeedSecKey is the secret this member deals (constant term of its polynomial).
+func (m *VerifDKGMember) SeedSecKey() groupsig.Seckey { return m.ctx.nodeInfo.genSeedSecKey() }
+
+// SeedPubKey is the public key of the dealt secret, as published in every piece.
+func (m *VerifDKGMember) SeedPubKey() groupsig.Pubkey { return m.ctx.nodeInfo.getSeedPubKey() }
+
+// Threshold is the threshold the member derives for the group size.
+func (m *VerifDKGMember) Threshold() int { return m.ctx.nodeInfo.threshold() }
